@@ -796,8 +796,9 @@ class Cache(object):
             return False
         db_tx.txid = txid
         t = self._parse_db_transaction(db_tx)
-        if t.block_height:
-            t.confirmations = (self.blockcount() - t.block_height) + 1
+        blockcount = self.blockcount(never_expires=True)
+        if t.block_height and blockcount and blockcount >= t.block_height:
+            t.confirmations = (blockcount - t.block_height) + 1
         return t
 
     def getaddress(self, address):
@@ -852,11 +853,12 @@ class Cache(object):
                 db_txs = self.session.query(DbCacheTransaction).join(DbCacheTransactionNode). \
                     filter(DbCacheTransactionNode.address == address). \
                     order_by(DbCacheTransaction.block_height, DbCacheTransaction.index).all()
+            blockcount = self.blockcount(never_expires=True)
             for db_tx in db_txs:
                 t = self._parse_db_transaction(db_tx)
                 if t:
-                    if t.block_height:
-                        t.confirmations = (self.blockcount() - t.block_height) + 1
+                    if t.block_height and blockcount and blockcount >= t.block_height:
+                        t.confirmations = (blockcount - t.block_height) + 1
                     txs.append(t)
                     if len(txs) >= limit:
                         break
